@@ -59,6 +59,17 @@ def bases(rng, lib, n_generated=3):
         if rng.random() < 0.5:
             env["signatures"]["not-a-key"] = {"signature": "ab" * 64}  # keys of the map are not part of the schema
         out.append(("generated%d" % i, env))
+    if n_generated >= 2:
+        # far more signature entries than any real document (well-formed shapes, raw and OpenPGP): every one of them is format-checked
+        n = rng.choice([65, 66, 80, 130])
+        md = gmd.delegating("key_mgr", {"pkg_mgr": gmd.delegation(U[:2], 1)}, version=3)
+        env = gmd.envelope(md)
+        for j in range(n):
+            e = {"signature": "%0128x" % rng.getrandbits(512)}
+            if j % 3 == 0:
+                e["other_headers"] = "04001608001d1621" + "%040x" % rng.getrandbits(160)
+            env["signatures"]["%064x" % rng.getrandbits(256)] = e
+        out.append(("crowded%d" % n, env))
     return out
 
 
